@@ -19,6 +19,11 @@ resulting state.  Against it, for every state S of the lattice:
   (B) the element read after executing, by the same reference semantics, ONLY the assignments named by
       `solution.relevant_nodes` (node (block, element, line) -> the assignment to element at that line), along P.
 
+Multi-leaf IRDst (implicit mode).  mc/irgen only builds flat conditionals `c ? j : k`; a further family replaces the
+head block's IRDst by a nested conditional, `c1 ? A : (c2 ? B : C)` or `c1 ? (c2 ? A : B) : C`, over every triple of
+successors that is not constant: one successor is then named by SEVERAL leaves (and with four blocks the head also
+dispatches three ways). The state lattice reaches every leaf (c1 != 0; c1 == 0, c2 != 0; c1 == 0, c2 == 0).
+
 Path constraints (implicit mode).  While `emul` runs, the translator and the z3 module seen by depgraph.py are wrapped
 so that the And/Or tree of the constraints it adds to its solver is recorded together with the miasm expression of
 every leaf (the z3 terms themselves are unchanged).  For every S the recorded tree is evaluated (leaves by refsem,
@@ -73,6 +78,7 @@ ALPHA_4 = ["a=b", "swap", "a=@[sp+4]", "@[sp+4]=b"]
 ALPHA_3 = ["a=b", "swap", "@[sp+4]=a"]
 ALPHA_2 = ["a=b", "@[sp+4]=a"]
 IMPL_6 = ["a=b", "a=0", "a=a+1", "zf=a==b", "@[sp+4]=a", "a=@[sp+4]"]
+IMPL_5 = ["a=b", "a=0", "a=a+1", "@[sp+4]=a", "a=@[sp+4]"]
 IMPL_4 = ["a=b", "a=0", "zf=a==b", "@[sp+4]=a"]
 IMPL_3 = ["a=0", "zf=a==b", "@[sp+4]=a"]
 IMPL_2 = ["a=b", "zf=a==b"]
@@ -81,7 +87,7 @@ NEST_2 = ["a=0", "b=a"]
 NEST_1 = ["a=0"]
 NEST_ZF = ["a=0", "zf=a==b"]
 NESTED_Q = {"pairs": [["a", "b"], ["zf", "a"]], "elements": ["a"]}
-NESTED_T = {"pairs": [["a", "b"], ["zf", "a"], ["@[sp+4]", "b"], ["a", "a"]], "elements": ["a", "@[sp+4]"]}
+NESTED_T = {"pairs": [["a", "b"], ["@[sp+4]", "b"], ["a", "a"]], "elements": ["a"]}
 NESTED_T4 = {"pairs": [["a", "b"], ["b", "zf"]], "elements": ["a"]}
 CONDS_ALL = ["a", "zf", "a==b", "a<u2", "@[sp+4]"]
 CONDS_4 = ["a", "zf", "a<u2", "@[sp+4]"]
@@ -108,7 +114,7 @@ PLAN_T = [
     ("implicit", 1, 2, IMPL_6, CONDS_ONE),
     ("implicit", 2, 2, IMPL_4, CONDS_ONE),
     ("implicit", 3, 1, IMPL_4, CONDS_ALL),
-    ("implicit", 3, 1, IMPL_6, ["a", "@[sp+4]"]),
+    ("implicit", 3, 1, IMPL_5, ["a", "@[sp+4]"]),
     ("implicit", 3, 2, IMPL_2, ["zf"]),
     ("implicit", 4, 1, IMPL_2, ["zf"]),
     ("implicit", 3, 1, NEST_2, ["a"], NESTED_Q),
